@@ -1116,3 +1116,55 @@ package saml
 //@ requires[C20] no_lock_held: NoLocksHeld()
 //@ contract (*IdentityProvider).ServeSSO
 //@ requires[C20] no_lock_held: NoLocksHeld()
+
+//@ -- ------------------------------------------------------------------------------------------
+//@ -- C15 / C02: the alias structs of the (Un)MarshalXML methods. Each time / duration field travels through its own
+//@ -- RelaxedTime / Duration alias field (`aux.F` reaches into the anonymous alias struct): unmarshalling stores into F what
+//@ -- was decoded into aux.F, marshalling encodes an alias struct whose aux.F is F.
+//@ import xml "encoding/xml"
+//@ contract (*LogoutRequest).MarshalXML
+//@ assert@call[C15,C02] Encode #1 (enc *xml.Encoder, v interface{}) uses aIssueInstant=aux.IssueInstant RelaxedTime, aNotOnOrAfter=aux.NotOnOrAfter *RelaxedTime alias_fields_from_struct: time.Time(aIssueInstant) == r.IssueInstant && (*time.Time)(aNotOnOrAfter) == r.NotOnOrAfter
+//@ contract (*LogoutRequest).UnmarshalXML
+//@ assert@store[C15,C02] IssueInstant #1 (stored time.Time) uses v=aux.IssueInstant RelaxedTime issueinstant_from_its_alias: stored == time.Time(v)
+//@ assert@store[C15,C02] NotOnOrAfter #1 (stored *time.Time) uses v=aux.NotOnOrAfter *RelaxedTime notonorafter_from_its_alias: stored == (*time.Time)(v)
+//@ contract (*AuthnRequest).MarshalXML
+//@ assert@call[C15,C02] Encode #1 (enc *xml.Encoder, v interface{}) uses aIssueInstant=aux.IssueInstant RelaxedTime alias_fields_from_struct: time.Time(aIssueInstant) == r.IssueInstant
+//@ contract (*AuthnRequest).UnmarshalXML
+//@ assert@store[C15,C02] IssueInstant #1 (stored time.Time) uses v=aux.IssueInstant RelaxedTime issueinstant_from_its_alias: stored == time.Time(v)
+//@ contract (*ArtifactResolve).MarshalXML
+//@ assert@call[C15,C02] Encode #1 (enc *xml.Encoder, v interface{}) uses aIssueInstant=aux.IssueInstant RelaxedTime alias_fields_from_struct: time.Time(aIssueInstant) == r.IssueInstant
+//@ contract (*ArtifactResolve).UnmarshalXML
+//@ assert@store[C15,C02] IssueInstant #1 (stored time.Time) uses v=aux.IssueInstant RelaxedTime issueinstant_from_its_alias: stored == time.Time(v)
+//@ contract (*ArtifactResponse).MarshalXML
+//@ assert@call[C15,C02] Encode #1 (enc *xml.Encoder, v interface{}) uses aIssueInstant=aux.IssueInstant RelaxedTime alias_fields_from_struct: time.Time(aIssueInstant) == r.IssueInstant
+//@ contract (*ArtifactResponse).UnmarshalXML
+//@ assert@store[C15,C02] IssueInstant #1 (stored time.Time) uses v=aux.IssueInstant RelaxedTime issueinstant_from_its_alias: stored == time.Time(v)
+//@ contract (*Response).MarshalXML
+//@ assert@call[C15,C02] Encode #1 (enc *xml.Encoder, v interface{}) uses aIssueInstant=aux.IssueInstant RelaxedTime alias_fields_from_struct: time.Time(aIssueInstant) == r.IssueInstant
+//@ contract (*Response).UnmarshalXML
+//@ assert@store[C15,C02] IssueInstant #1 (stored time.Time) uses v=aux.IssueInstant RelaxedTime issueinstant_from_its_alias: stored == time.Time(v)
+//@ contract (*Assertion).UnmarshalXML
+//@ assert@store[C15,C02] IssueInstant #1 (stored time.Time) uses v=aux.IssueInstant RelaxedTime issueinstant_from_its_alias: stored == time.Time(v)
+//@ contract (*SubjectConfirmationData).MarshalXML
+//@ assert@call[C15,C02] EncodeElement #1 (enc *xml.Encoder, v interface{}, st xml.StartElement) uses aNotOnOrAfter=aux.NotOnOrAfter RelaxedTime alias_fields_from_struct: time.Time(aNotOnOrAfter) == s.NotOnOrAfter
+//@ contract (*SubjectConfirmationData).UnmarshalXML
+//@ assert@store[C15,C02] NotOnOrAfter #1 (stored time.Time) uses v=aux.NotOnOrAfter RelaxedTime notonorafter_from_its_alias: stored == time.Time(v)
+//@ contract (*Conditions).MarshalXML
+//@ assert@call[C15,C02] EncodeElement #1 (enc *xml.Encoder, v interface{}, st xml.StartElement) uses aNotBefore=aux.NotBefore RelaxedTime, aNotOnOrAfter=aux.NotOnOrAfter RelaxedTime alias_fields_from_struct: time.Time(aNotBefore) == c.NotBefore && time.Time(aNotOnOrAfter) == c.NotOnOrAfter
+//@ contract (*Conditions).UnmarshalXML
+//@ assert@store[C15,C02] NotBefore #1 (stored time.Time) uses v=aux.NotBefore RelaxedTime notbefore_from_its_alias: stored == time.Time(v)
+//@ assert@store[C15,C02] NotOnOrAfter #1 (stored time.Time) uses v=aux.NotOnOrAfter RelaxedTime notonorafter_from_its_alias: stored == time.Time(v)
+//@ contract (*AuthnStatement).MarshalXML
+//@ assert@call[C15,C02] EncodeElement #1 (enc *xml.Encoder, v interface{}, st xml.StartElement) uses aAuthnInstant=aux.AuthnInstant RelaxedTime, aSessionNotOnOrAfter=aux.SessionNotOnOrAfter *RelaxedTime alias_fields_from_struct: time.Time(aAuthnInstant) == a.AuthnInstant && (*time.Time)(aSessionNotOnOrAfter) == a.SessionNotOnOrAfter
+//@ contract (*AuthnStatement).UnmarshalXML
+//@ assert@store[C15,C02] AuthnInstant #1 (stored time.Time) uses v=aux.AuthnInstant RelaxedTime authninstant_from_its_alias: stored == time.Time(v)
+//@ assert@store[C15,C02] SessionNotOnOrAfter #1 (stored *time.Time) uses v=aux.SessionNotOnOrAfter *RelaxedTime sessionnotonorafter_from_its_alias: stored == (*time.Time)(v)
+//@ contract (*LogoutResponse).MarshalXML
+//@ assert@call[C15,C02] Encode #1 (enc *xml.Encoder, v interface{}) uses aIssueInstant=aux.IssueInstant RelaxedTime alias_fields_from_struct: time.Time(aIssueInstant) == r.IssueInstant
+//@ contract (*LogoutResponse).UnmarshalXML
+//@ assert@store[C15,C02] IssueInstant #1 (stored time.Time) uses v=aux.IssueInstant RelaxedTime issueinstant_from_its_alias: stored == time.Time(v)
+//@ contract (EntityDescriptor).MarshalXML
+//@ assert@call[C15,C02] Encode #1 (enc *xml.Encoder, v interface{}) uses aValidUntil=aux.ValidUntil RelaxedTime, aCacheDuration=aux.CacheDuration Duration alias_fields_from_struct: time.Time(aValidUntil) == m.ValidUntil && time.Duration(aCacheDuration) == m.CacheDuration
+//@ contract (*EntityDescriptor).UnmarshalXML
+//@ assert@store[C15,C02] ValidUntil #1 (stored time.Time) uses v=aux.ValidUntil RelaxedTime validuntil_from_its_alias: stored == time.Time(v)
+//@ assert@store[C15,C02] CacheDuration #1 (stored time.Duration) uses v=aux.CacheDuration Duration cacheduration_from_its_alias: stored == time.Duration(v)
